@@ -12,6 +12,10 @@ mod eng_scan;
 mod eng_stream;
 mod eng_writer;
 mod gen_cnf;
+mod eng_aiger;
+mod gen_aiger;
+mod eng_btor2;
+mod gen_btor2;
 
 use common::*;
 use std::io::{BufRead, Write};
@@ -32,6 +36,8 @@ pub fn run_line(line: &str) -> (String, Vec<String>) {
         "writer" => eng_writer::run_case(line),
         "renumber" => eng_renumber::run_case(line),
         "cnf" => eng_cnf::run_case(line),
+        "aiger" => eng_aiger::run_case(line),
+        "btor2" => eng_btor2::run_case(line),
         "stream" => eng_stream::run_case(line),
         _ => ("unknown-engine".into(), vec![]),
     }
@@ -85,6 +91,24 @@ fn main() {
                         }
                         gen_cnf::gen_case(&mut r, opt, thorough)
                     }
+                    "btor2" => {
+                        if opt == "sweep" {
+                            for l in gen_btor2::fault_sweep(&mut r) {
+                                writeln!(out, "{}", l).unwrap();
+                            }
+                            continue;
+                        }
+                        gen_btor2::gen_case(&mut r, opt, thorough)
+                    }
+                    "aiger" => {
+                        if opt == "sweep" {
+                            for l in gen_aiger::fault_sweep(&mut r) {
+                                writeln!(out, "{}", l).unwrap();
+                            }
+                            continue;
+                        }
+                        gen_aiger::gen_case(&mut r, opt, thorough)
+                    }
                     _ => panic!("unknown engine {}", engine),
                 };
                 writeln!(out, "{}", line).unwrap();
@@ -104,8 +128,66 @@ fn main() {
                 writeln!(out, "{}\t{}", obs, fails.join("; ")).unwrap();
             }
         }
+        Some("shrink") => {
+            // delta-debugging on the list-valued fields of a case line (ops `o`, schedules `s`,
+            // hex data `d`): keep deleting pieces while the same property's oracle still fails
+            let stdin = std::io::stdin();
+            let mut line = String::new();
+            stdin.lock().read_line(&mut line).unwrap();
+            let line = line.trim_end().to_string();
+            let tag_of = |l: &str| -> Option<String> {
+                let (_, fails) = catch(|| run_line(l)).unwrap_or(("".into(), vec!["H:harness".into()]));
+                fails.first().map(|f| f.split(':').next().unwrap_or("").to_string())
+            };
+            let target = tag_of(&line);
+            let mut best = line.clone();
+            if target.is_some() {
+                let mut progress = true;
+                let mut rounds = 0;
+                while progress && rounds < 6 {
+                    progress = false;
+                    rounds += 1;
+                    let fields: Vec<String> = best.split(' ').map(|x| x.to_string()).collect();
+                    for (fi, f) in fields.iter().enumerate() {
+                        let Some((k, v)) = f.split_once('=') else { continue };
+                        let pieces: Vec<String> = match k {
+                            "o" | "s" if v != "-" => v.split(',').map(|x| x.to_string()).collect(),
+                            "d" | "pre" if v != "-" => (0..v.len() / 2).map(|i| v[2 * i..2 * i + 2].to_string()).collect(),
+                            _ => continue,
+                        };
+                        let sep = if k == "o" || k == "s" { "," } else { "" };
+                        let mut cur = pieces.clone();
+                        let mut chunk = (cur.len() / 2).max(1);
+                        while chunk >= 1 {
+                            let mut i = 0;
+                            while i < cur.len() {
+                                let mut trial = cur.clone();
+                                let end = (i + chunk).min(trial.len());
+                                trial.drain(i..end);
+                                let joined = if trial.is_empty() { "-".to_string() } else { trial.join(sep) };
+                                let mut nf = fields.clone();
+                                nf[fi] = format!("{}={}", k, joined);
+                                // keep earlier accepted shrinks of other fields
+                                let cand_fields: Vec<String> = best.split(' ').enumerate().map(|(j, x)| if j == fi { nf[fi].clone() } else { x.to_string() }).collect();
+                                let cand = cand_fields.join(" ");
+                                if tag_of(&cand) == target {
+                                    best = cand;
+                                    cur = trial;
+                                    progress = true;
+                                } else {
+                                    i += chunk;
+                                }
+                            }
+                            if chunk == 1 { break; }
+                            chunk /= 2;
+                        }
+                    }
+                }
+            }
+            writeln!(out, "{}", best).unwrap();
+        }
         _ => {
-            eprintln!("usage: vh gen <engine> --seed S --n N | vh run");
+            eprintln!("usage: vh gen <engine> --seed S --n N | vh run | vh shrink");
             std::process::exit(2);
         }
     }
